@@ -30,20 +30,18 @@ class _Capture(io.StringIO):
         return super().getvalue() + self.buffer.getvalue().decode("utf-8", "replace")
 
 
-class _Stdin:
-    def __init__(self, data):
-        self._r, self._w = os.pipe()
-        os.write(self._w, data)
-        os.close(self._w)
-
-    def fileno(self):
-        return self._r
-
-    def close(self):
-        try:
-            os.close(self._r)
-        except OSError:
-            pass
+def _Stdin(data):
+    """A real text stream over a real descriptor (as `bandit - < file`): .fileno(), .buffer and .read() all work, so the
+    harness does not depend on which of them bandit uses to get at the bytes."""
+    import tempfile
+    f = tempfile.TemporaryFile()
+    f.write(data)
+    f.flush()
+    f.seek(0)
+    fd = os.dup(f.fileno())
+    f.close()
+    os.lseek(fd, 0, os.SEEK_SET)
+    return open(fd, "r", encoding="utf-8", newline=None)
 
 
 def run_main(argv, cwd=None, stdin_bytes=None, entry="bandit.cli.main"):
@@ -78,7 +76,10 @@ def run_main(argv, cwd=None, stdin_bytes=None, entry="bandit.cli.main"):
         sys.argv = old_argv
         sys.stdin = old_stdin
         if st:
-            st.close()
+            try:
+                st.close()      # bandit's own os.fdopen() of the descriptor may have closed it already
+            except OSError:
+                pass
         os.chdir(old_cwd)
         for h in list(root.handlers):
             try:
